@@ -123,3 +123,104 @@ def c18_codes(_):
 def c17_one(oktas):
     from ampycloud import icao
     return [bool(x) for x in icao.significant_cloud(list(oktas))]
+
+
+# ------------------------------------------------------------------------------------------------
+# C15: input screening
+# ------------------------------------------------------------------------------------------------
+def _build_screen_obj(f):
+    import pandas as pd
+    rows = f['rows']
+    v = f['variant']
+    ce = []
+    for i, r in enumerate(rows):
+        if v == 'mixedceilo' and r['c'] == '1' and i % 2 == 0:
+            ce.append(1)
+        else:
+            ce.append(r['c'])
+    dt = [(-15.0 * (3 - r['t'])) for r in rows]
+    hs = [float('nan') if r['h'] == -1 else float(r['h']) for r in rows]
+    ks = [int(r['k']) for r in rows]
+    df = pd.DataFrame({'ceilo': pd.Series(ce, dtype=object), 'dt': pd.Series(dt, dtype=float),
+                       'height': pd.Series(hs, dtype=float), 'type': pd.Series(ks, dtype=int)})
+    if v == 'plain':
+        df['ceilo'] = df['ceilo'].astype(pd.StringDtype())
+    elif v == 'intdt':
+        df['ceilo'] = df['ceilo'].astype(pd.StringDtype())
+        df['dt'] = df['dt'].astype(int)
+    elif v == 'floattype':
+        df['ceilo'] = df['ceilo'].astype(pd.StringDtype())
+        df['type'] = df['type'].astype(float)
+    elif v == 'int8type':
+        df['type'] = df['type'].astype('int8')
+    elif v == 'intheight':
+        if len(df) and df['height'].notna().all():
+            df['height'] = df['height'].astype(int)
+    elif v == 'strtype':
+        df['type'] = df['type'].astype(str)
+    if f['extra']:
+        df['station'] = ['LSGG'] * len(df)
+        df['seq'] = list(range(len(df)))
+    if f['missing'] != 'none':
+        df = df.drop(columns=[f['missing']])
+    o = f['obj']
+    if o == 'df':
+        return df
+    if o == 'list':
+        return df.values.tolist()
+    if o == 'none':
+        return None
+    if o == 'dict':
+        return df.to_dict(orient='list')
+    if o == 'series':
+        return df['height']
+    if o == 'array':
+        return df[['dt', 'height']].to_numpy()
+    raise ValueError(o)
+
+
+def screen_case(f):
+    import copy
+    import pandas as pd
+    from ampycloud.utils import utils as autils
+    from ampycloud.errors import AmpycloudError, AmpycloudWarning
+    from ampycloud import hardcoded
+    arg = _build_screen_obj(f)
+    before = copy.deepcopy(arg)
+    res, exc, out = 'ok', '', None
+    with warnings.catch_warnings(record=True) as w1:
+        warnings.simplefilter('always')
+        try:
+            out = autils.check_data_consistency(arg)
+        except Exception as e:
+            res, exc = 'exc', type(e).__name__
+
+    def same(a, b):
+        if isinstance(a, pd.DataFrame) or isinstance(a, pd.Series):
+            return type(a) is type(b) and a.equals(b) and list(a.index) == list(b.index) and \
+                (not isinstance(a, pd.DataFrame) or (list(a.columns) == list(b.columns) and list(map(str, a.dtypes)) == list(map(str, b.dtypes))))
+        if isinstance(a, np.ndarray):
+            return isinstance(b, np.ndarray) and a.shape == b.shape and np.array_equal(a, b, equal_nan=True)
+        return a == b or (a is None and b is None)
+    o = {'cols4': False, 'dtypes': False, 'vals': False, 'argsame': bool(same(arg, before)), 'newobj': False, 'idem': False, 'idemwarn': False}
+    if res == 'ok':
+        req = hardcoded.REQ_DATA_COLS
+        o['newobj'] = out is not arg and isinstance(out, pd.DataFrame)
+        if isinstance(out, pd.DataFrame):
+            o['cols4'] = sorted(out.columns) == sorted(req.keys())
+            o['dtypes'] = o['cols4'] and all(out[c].dtype == t for c, t in req.items())
+            if o['cols4'] and isinstance(before, pd.DataFrame) and all(c in before.columns for c in req):
+                try:
+                    exp = pd.DataFrame({c: before[c].astype(t) for c, t in req.items()}, index=before.index)
+                    o['vals'] = bool(out[list(req)].reset_index(drop=True).equals(exp[list(req)].reset_index(drop=True))) and len(out) == len(before)
+                except Exception:
+                    o['vals'] = False
+            with warnings.catch_warnings(record=True) as w2:
+                warnings.simplefilter('always')
+                try:
+                    out2 = autils.check_data_consistency(out)
+                    o['idem'] = bool(out2.equals(out)) and list(map(str, out2.dtypes)) == list(map(str, out.dtypes)) and list(out2.columns) == list(out.columns)
+                except Exception:
+                    o['idem'] = False
+            o['idemwarn'] = any(issubclass(x.category, AmpycloudWarning) and str(x.message).startswith('Column') for x in w2)
+    return {'f': f, 'res': res, 'exc': exc, 'o': o}
